@@ -35,7 +35,7 @@ EXC = ("ValueError", "KeyError", "RuntimeError", "ZeroDivisionError", "OSError",
 # '*_yamlrun*': the configuration is written to a YAML file and started through pyxel.run(<file>) (what the command line does), without / with an
 # 'outputs' section
 MODES = ("exposure", "exposure_debug", "obs_seq", "obs_seq", "obs_dask_sync", "obs_dask_threads",
-         "exposure_yamlrun", "exposure_yamlrun_outputs", "obs_seq_yamlrun", "obs_seq_yamlrun_outputs")
+         "exposure_yamlrun", "exposure_yamlrun_outputs", "obs_seq_yamlrun", "obs_seq_yamlrun_outputs", "exposure_legacy", "obs_seq_legacy")
 
 
 @st.composite
@@ -120,10 +120,13 @@ def run_site(cfg, site, rec, tmp):
         mode = "exposure" if mode.startswith("exposure") else "obs_seq"  # the remaining oracles are those of the underlying mode
     else:
         cfgobj = pyx.build(spec)
+        legacy = mode.endswith("_legacy")  # pyxel.exposure_mode / pyxel.observation_mode
+        if legacy:
+            mode = mode[:-len("_legacy")]
         try:
             result = pyx.run(cfgobj, debug=mode == "exposure_debug", sched=sched, workers=4, compute=False,
-                             with_inherited_coords=mode.startswith("obs_dask"))
-            stage = "run_mode"
+                             with_inherited_coords=mode.startswith("obs_dask"), entry="legacy" if legacy else "run_mode")
+            stage = "legacy entry" if legacy else "run_mode"
         except Exception as exc:  # noqa: BLE001
             raised, stage = exc, "run_mode"
     if raised is None and mode.startswith("obs_dask"):
@@ -153,7 +156,10 @@ def run_site(cfg, site, rec, tmp):
     want_type = {"ProbeError": "ProbeError", "TwoArgError": "TwoArgError"}.get(cfg["exc"], cfg["exc"])
     rec.check(type(raised).__name__ == want_type, "original_type_lost", f"{where}: raised {type(raised).__name__} at {stage}, injected {want_type}")
     rec.check(failing["group"] in text and failing["name"] in text, "group_or_model_not_named", f"{where}: {text[:300]}")
-    if mode == "obs_seq":
+    if mode == "obs_seq" and "legacy" not in stage:
+        # (the parameter values are attached by Observation._run_single_pipeline, the path behind pyxel.run_mode / pyxel.run which the property
+        # names as its observation point; the deprecated pyxel.observation_mode never had them - asserted there: propagation, type, model identity,
+        # nothing executed afterwards)
         key = "detector.environment.temperature"
         rec.check(key in text and repr(cfg["temps"][site["run"]]) in text, "parameters_of_failing_run_not_attached", f"{where}: {text[:400]}")
     # ---- nothing executes after the fault
